@@ -44,6 +44,11 @@ func c18Doc(x *mcx.Exec, tag string, sharedPath bool) (J, bool) {
 			}
 			item[m] = op
 		}
+		if len(item) == 0 && sharedPath && pi == 1 && tag == "P" {
+			// the shared path always exists in the primary (an id-less operation by default), so that the same path
+			// in a mixin is skipped without spending further deviations
+			item["get"] = J{"responses": J{"200": J{"description": tag}}}
+		}
 		if len(item) > 0 {
 			paths[pkey] = item
 		}
